@@ -219,12 +219,26 @@ def _dcw(dtree):
     if _texts(clean(dfn[0].body)) != want:
         raise Unrecognised("DataclassWrapper.defaults: body changed")
     mg = _nologs(find_def(dtree, "merge", cls="DataclassWrapper"))
-    want = ["for dest in other.destinations:\n    if dest not in self.destinations:\n        self.destinations.append(dest)",
-            "self.defaults.extend(other.defaults)",
-            "for field_wrapper in self.fields:\n    field_wrapper.set_default(None)",
-            "for child, other_child in zip(self._children, other._children):\n    child.merge(other_child)"]
-    if _texts(clean(mg.body)) != want:
+    head = ["for dest in other.destinations:\n    if dest not in self.destinations:\n        self.destinations.append(dest)",
+            "self.defaults.extend(other.defaults)"]
+    tail = ["for child, other_child in zip(self._children, other._children):\n    child.merge(other_child)"]
+    resets = {"for field_wrapper in self.fields:\n    field_wrapper.set_default(None)": "MrSelf",
+              "for field_wrapper in other.fields:\n    field_wrapper.set_default(None)": "MrOther"}
+    got = _texts(clean(mg.body))
+    if got == head + tail:
+        reset = "MrNone"
+    elif len(got) == 4 and got[:2] == head and got[3:] == tail and got[2] in resets:
+        reset = resets[got[2]]
+    else:
         raise Unrecognised("DataclassWrapper.merge: body changed")
+    # the debug messages of __init__ evaluate field_wrapper.default (-> parent.destinations is cached) and self.defaults (-> cached)
+    raw_init = find_def(dtree, "__init__", cls="DataclassWrapper")
+    logs = [unparse(n) for n in ast.walk(raw_init) if is_logger_call(n)]
+    caches = ("true" if any("{field_wrapper.default}" in t for t in logs) and any("{self.defaults}" in t for t in logs) else "false")
+    last = raw_init.body[-1]
+    if caches == "true" and not (is_logger_call(last) and "{self.defaults}" in unparse(last)):
+        raise Unrecognised("DataclassWrapper.__init__: self.defaults is not evaluated at the end of the constructor")
+    return reset, caches
 
 
 def find_class_body(tree, name):
@@ -232,6 +246,172 @@ def find_class_body(tree, name):
     if len(c) != 1:
         raise Unrecognised(f"class {name}")
     return c[0].body
+
+
+def _default_value(utree):
+    fn = _nologs(find_def(utree, "default_value"))
+    if [a.arg for a in fn.args.args] != ["field"]:
+        raise Unrecognised("utils.default_value signature")
+    body = clean(fn.body)
+    if len(body) != 1 or not isinstance(body[0], ast.If):
+        raise Unrecognised("utils.default_value: expected one if/elif/else")
+    arms, els = if_chain(body[0])
+    if _texts(els) != ["return dataclasses.MISSING"]:
+        raise Unrecognised("utils.default_value: else branch")
+    table = {"field.default is not dataclasses.MISSING": ("DvDefault", ["return field.default"]),
+             "field.default_factory is not dataclasses.MISSING": ("DvFactory", ["constructor = field.default_factory", "return constructor()"])}
+    out = []
+    for test, b in arms:
+        t = unparse(test)
+        if t not in table or _texts(b) != table[t][1] or table[t][0] in out:
+            raise Unrecognised(f"utils.default_value: arm {t}")
+        out.append(table[t][0])
+    return out
+
+
+POST_ARMS = {
+    "self.is_enum": ("PaEnumByName", "if isinstance(raw_parsed_value, str):\n    raw_parsed_value = self.type[raw_parsed_value]\nreturn raw_parsed_value"),
+    "self.is_choice": ("PaChoiceDict", "choice_dict = self.choice_dict\nif choice_dict:\n    key_type = type(next(iter(choice_dict.keys())))\n"
+                       "    if self.is_list and isinstance(raw_parsed_value[0], key_type):\n        return [choice_dict[value] for value in raw_parsed_value]\n"
+                       "    elif isinstance(raw_parsed_value, key_type):\n        return choice_dict[raw_parsed_value]\nreturn raw_parsed_value"),
+    "self.is_tuple": ("PaTupleOfSeq", "if raw_parsed_value is not None and (not isinstance(raw_parsed_value, tuple)):\n    return tuple(raw_parsed_value)"),
+    "self.is_bool": ("PaBoolId", "return raw_parsed_value"),
+    "self.is_list": ("PaListOfTuple", "if isinstance(raw_parsed_value, tuple):\n    return list(raw_parsed_value)\nelse:\n    return raw_parsed_value"),
+    "self.is_subparser": ("PaSubparserId", "return raw_parsed_value"),
+    "utils.is_optional(self.type)": ("PaOptTupleOfList", "item_type = utils.get_args(self.type)[0]\nif utils.is_tuple(item_type) and isinstance(raw_parsed_value, list):\n"
+                                     "    return tuple(raw_parsed_value)"),
+    "self.type not in utils.builtin_types": ("PaCallType", "try:\n    return self.type(raw_parsed_value)\nexcept Exception as e:\n    return raw_parsed_value"),
+}
+
+
+def _postprocess(fwtree):
+    fn = _nologs(find_def(fwtree, "postprocess", cls="FieldWrapper"))
+    if [a.arg for a in fn.args.args] != ["self", "raw_parsed_value"]:
+        raise Unrecognised("FieldWrapper.postprocess signature")
+    body = clean(fn.body)
+    if len(body) != 2 or not isinstance(body[0], ast.If) or unparse(body[1]) != "return raw_parsed_value":
+        raise Unrecognised("FieldWrapper.postprocess: expected the type chain followed by `return raw_parsed_value`")
+    arms, els = if_chain(body[0])
+    if els:
+        raise Unrecognised("FieldWrapper.postprocess: the chain has an else")
+    out = []
+    for test, b in arms:
+        t = unparse(test)
+        text = "\n".join(_texts([x for x in b if not isinstance(x, ast.Pass)]))
+        if t not in POST_ARMS or POST_ARMS[t][1] != text:
+            raise Unrecognised(f"FieldWrapper.postprocess: arm `{t}` has the body\n{text}")
+        out.append(POST_ARMS[t][0])
+    return out
+
+
+def _duplicate(fwtree):
+    """duplicate_if_needed: everything but the final chain must have the known text; the chain is the fact"""
+    N = "num_instances_to_parse"
+    fn = _nologs(find_def(fwtree, "duplicate_if_needed", cls="FieldWrapper"))
+    if [a.arg for a in fn.args.args] != ["self", "parsed_values"]:
+        raise Unrecognised("duplicate_if_needed signature")
+    body = clean(fn.body)
+    t = _texts(body)
+    want = [f"{N} = len(self.destinations)", "assert self.is_reused", None,
+            "if utils.is_list(self.type) and isinstance(parsed_values, tuple):\n    parsed_values = list(parsed_values)",
+            "if not self.is_tuple and (not self.is_list) and isinstance(parsed_values, list):\n    nesting_level = utils.get_nesting_level(parsed_values)\n"
+            f"    if nesting_level == 2 and len(parsed_values) == 1 and (len(parsed_values[0]) == {N}):\n"
+            "        result: list = parsed_values[0]\n        return result",
+            "if not isinstance(parsed_values, (list, tuple)):\n    parsed_values = [parsed_values]"]
+    if len(body) != 7 or not t[2].startswith(f"assert {N} > 1") or any(w is not None and w != g for w, g in zip(want, t)):
+        raise Unrecognised("duplicate_if_needed: statements before the final chain changed")
+    arms, els = if_chain(body[6])
+
+    def act(b):
+        tt = _texts(b)
+        if tt == ["return parsed_values"]:
+            return "DAsIs"
+        if tt == [f"return parsed_values * {N}"]:
+            return "DTimesN"
+        if len(b) == 1 and isinstance(b[0], ast.Raise) and unparse(b[0].exc).startswith("utils.InconsistentArgumentError("):
+            return "DInconsistent"
+        raise Unrecognised(f"duplicate_if_needed: arm body {tt}")
+
+    tests = {f"len(parsed_values) == {N}": "LenEqN", "len(parsed_values) == 1": "LenEqOne"}
+    chain = []
+    for test, b in arms:
+        if unparse(test) not in tests:
+            raise Unrecognised(f"duplicate_if_needed: test {unparse(test)}")
+        chain.append(f"({tests[unparse(test)]}, {act(b)})")
+    if not els:
+        raise Unrecognised("duplicate_if_needed: no else")
+    fr = _nologs(find_def(fwtree, "is_reused", cls="FieldWrapper"))
+    if _texts(clean(fr.body)) != ["return len(self.destinations) > 1"]:
+        raise Unrecognised("FieldWrapper.is_reused")
+    fd = [n for n in find_class_body(fwtree, "FieldWrapper") if isinstance(n, ast.FunctionDef) and n.name == "destinations"]
+    if len(fd) != 1 or _texts(clean(fd[0].body)) != ["return [f'{parent_dest}.{self.name}' for parent_dest in self.parent.destinations]"]:
+        raise Unrecognised("FieldWrapper.destinations")
+    return chain, act(els)
+
+
+def _pipeline(ptree):
+    """add_arguments -> _add_arguments -> DataclassWrapper(default=...); parse_known_args -> _preprocessing / argparse / _postprocessing"""
+    def kw_of(call_text_prefix, fn, kw):
+        calls = [n for n in ast.walk(fn) if isinstance(n, ast.Call) and unparse(n.func) == call_text_prefix]
+        if len(calls) != 1:
+            raise Unrecognised(f"{fn.name}: call of {call_text_prefix}")
+        d = {k.arg: unparse(k.value) for k in calls[0].keywords}
+        return d
+
+    add = _nologs(find_def(ptree, "add_arguments", cls="ArgumentParser"))
+    d1 = kw_of("self._add_arguments", add, "default")
+    if d1.get("dataclass_type") != "dataclass_type" or d1.get("name") != "dest":
+        raise Unrecognised("add_arguments: class / destination forwarded to _add_arguments")
+    if "self._wrappers.append(new_wrapper)" not in _texts(clean(add.body)):
+        raise Unrecognised("add_arguments: the wrapper is not appended to self._wrappers")
+    inner = _nologs(find_def(ptree, "_add_arguments", cls="ArgumentParser"))
+    d2 = kw_of("dataclass_wrapper_class", inner, "default")
+    if d2.get("dataclass") != "dataclass_type" or d2.get("name") != "name" or d2.get("parent") != "parent":
+        raise Unrecognised("_add_arguments: arguments of the DataclassWrapper")
+    fw = []
+    for d in (d1, d2):
+        v = d.get("default")
+        if v == "default":
+            fw.append(True)
+        elif v in (None, "None"):
+            fw.append(False)
+        else:
+            raise Unrecognised(f"default forwarded as {v}")
+    forwards = "true" if all(fw) else "false"
+    post = _nologs(find_def(ptree, "_postprocessing", cls="ArgumentParser"))
+    want = ["self._remove_subgroups_from_namespace(parsed_args)", "wrappers = _flatten_wrappers(self._wrappers)",
+            "constructor_arguments = self.constructor_arguments.copy()",
+            "for wrapper in wrappers:\n    for destination in wrapper.destinations:\n        constructor_arguments.setdefault(destination, {})",
+            "parsed_args, constructor_arguments = self._fill_constructor_arguments_with_fields(parsed_args, wrappers=wrappers, "
+            "initial_constructor_arguments=constructor_arguments)",
+            "parsed_args = self._instantiate_dataclasses(parsed_args, wrappers=wrappers, constructor_arguments=constructor_arguments)",
+            "return parsed_args"]
+    if _texts(clean(post.body)) != want:
+        raise Unrecognised("_postprocessing: body changed")
+    pre = _texts(clean(_nologs(find_def(ptree, "_preprocessing", cls="ArgumentParser")).body))
+    need = ["wrapped_dataclasses = self._wrappers.copy()",
+            "wrapped_dataclasses = self._conflict_resolver.resolve_and_flatten(wrapped_dataclasses)",
+            "wrapped_dataclasses, chosen_subgroups = self._resolve_subgroups(wrappers=wrapped_dataclasses, args=args, namespace=namespace)",
+            "wrapped_dataclasses = _flatten_wrappers(wrapped_dataclasses)",
+            "for wrapped_dataclass in wrapped_dataclasses:\n    wrapped_dataclass.add_arguments(parser=self)",
+            "self._wrappers = wrapped_dataclasses"]
+    pos = [pre.index(n) if n in pre else -1 for n in need]
+    if -1 in pos or pos != sorted(pos):
+        raise Unrecognised("_preprocessing: resolve / flatten / add_arguments sequence changed")
+    pk = _texts(clean(_nologs(find_def(ptree, "parse_known_args", cls="ArgumentParser")).body))
+    need = ["self._preprocessing(args=args, namespace=namespace)", "parsed_args, unparsed_args = super().parse_known_args(args, namespace)",
+            "parsed_args = self._postprocessing(parsed_args)", "return (parsed_args, unparsed_args)"]
+    pos = [pk.index(n) if n in pk else -1 for n in need]
+    if -1 in pos or pos != sorted(pos):
+        raise Unrecognised("parse_known_args: _preprocessing / argparse / _postprocessing sequence changed")
+    flat = _texts(clean(_nologs(find_def(ptree, "_flatten_wrappers")).body))
+    if flat != ["_assert_no_duplicates(wrappers)", "roots_only = _unflatten_wrappers(wrappers)",
+                "return sum(([w] + list(w.descendants) for w in roots_only), [])"]:
+        raise Unrecognised("_flatten_wrappers: body changed")
+    unf = _texts(clean(_nologs(find_def(ptree, "_unflatten_wrappers")).body))
+    if unf != ["_assert_no_duplicates(wrappers)", "return [w for w in wrappers if w.parent is None]"]:
+        raise Unrecognised("_unflatten_wrappers: body changed")
+    return forwards, "true"
 
 
 def _fix_merge(ctree):
@@ -343,7 +523,13 @@ def emit(repo: str) -> str:
     ctree = parse(repo, "simple_parsing/conflicts.py")
     guard = _guard(ptree)
     order, cached, chain = _default_property(fwtree)
-    _dcw(dtree)
+    reset, caches = _dcw(dtree)
+    if cached == "true" and caches != "true":
+        raise Unrecognised("a factory result cached in `_default` without the constructor evaluating field_wrapper.default")
+    dv = _default_value(parse(repo, "simple_parsing/utils.py"))
+    arms = _postprocess(fwtree)
+    dup_chain, dup_else = _duplicate(fwtree)
+    forwards, pipeline = _pipeline(ptree)
     rest_sorted = _fix_merge(ctree)
     deepest = _instantiate(ptree)
     parse_same = _parse_helper(ptree)
@@ -357,14 +543,23 @@ def emit(repo: str) -> str:
         f"Definition deepest_first_gen : bool := {deepest}.\n"
         f"Definition parse_is_parser_gen : bool := {parse_same}.\n"
         f"Definition merge_rest_sorted_gen : bool := {rest_sorted}.\n"
+        f"Definition default_value_sources_gen : list dvsrc := [{'; '.join(dv)}].\n"
+        f"Definition merge_resets_gen : mreset := {reset}.\n"
+        f"Definition dup_chain_gen : list (len_test * dup_act) := [{'; '.join(dup_chain)}].\n"
+        f"Definition dup_else_gen : dup_act := {dup_else}.\n"
+        f"Definition init_caches_gen : bool := {caches}.\n"
+        f"Definition forwards_default_gen : bool := {forwards}.\n"
+        f"Definition pipeline_std_gen : bool := {pipeline}.\n"
+        f"Definition postprocess_arms_gen : list post_arm := [{'; '.join(arms)}].\n"
         "(* the model instantiated with the regenerated facts *)\n"
         "Definition leaf_default_gen := leaf_default default_sources_gen factory_cached_gen.\n"
-        "Definition run_fields_gen := run_fields guard_gen default_sources_gen factory_cached_gen.\n"
-        "Definition parse_plain_gen := parse_plain guard_gen default_sources_gen factory_cached_gen.\n"
-        "Definition parse_uniform_gen := parse_uniform default_sources_gen pk_chain_gen.\n"
+        "Definition run_fields_gen := run_fields guard_gen default_sources_gen factory_cached_gen default_value_sources_gen.\n"
+        "Definition parse_plain_gen := parse_plain guard_gen default_sources_gen factory_cached_gen default_value_sources_gen.\n"
+        "Definition parse_uniform_gen := parse_uniform default_sources_gen pk_chain_gen default_value_sources_gen dup_chain_gen dup_else_gen.\n"
         "Definition parse_merge_gen := parse_merge guard_gen default_sources_gen factory_cached_gen pk_chain_gen deepest_first_gen\n"
-        "  merge_rest_sorted_gen max_attempts_gen.\n"
+        "  merge_rest_sorted_gen max_attempts_gen default_value_sources_gen merge_resets_gen dup_chain_gen dup_else_gen init_caches_gen.\n"
         "Definition sp_parse_empty_gen := sp_parse_empty guard_gen default_sources_gen factory_cached_gen pk_chain_gen deepest_first_gen\n"
-        "  parse_is_parser_gen merge_rest_sorted_gen max_attempts_gen resolve_gen.\n"
+        "  parse_is_parser_gen merge_rest_sorted_gen max_attempts_gen resolve_gen default_value_sources_gen merge_resets_gen dup_chain_gen\n"
+        "  dup_else_gen init_caches_gen forwards_default_gen pipeline_std_gen.\n"
         "Definition side_ok_gen := side_ok guard_gen pk_chain_gen max_attempts_gen.\n"
     )
